@@ -98,7 +98,7 @@ class C04(LoopProp):
     module = "Tftp.Props.C04"
     rule = ("closed-loop transfers between the real sender and the real receiver: every single fault (drop or duplicate, DATA or ACK) at every datagram position for windowsize 1..4 and "
             "file lengths up to 2w+2 blocks around block/window boundaries; all pairs of faults for short transfers; seeded random schedules with up to 5 losses and 3 duplications, "
-            "w up to 13; the same schedules through the Lean closed-loop simulator (outcome, datagram counts and number of quiescent time-outs compared); "
+            "w up to 13; lock-step schedules with 1..5 losses clustered on one block / spread / around the final block (the domain of c04_lockstep_loss_tolerance); the same schedules through the Lean closed-loop simulator (outcome, datagram counts and number of quiescent time-outs compared); "
             "non-trivial = distinct schedule with at least one fault")
 
     def generate(self, tier, rng):
@@ -147,6 +147,30 @@ class C04(LoopProp):
             ud = rng.sample(range(hi), rng.randint(0, 2))
             ua = rng.sample(range(hi), rng.randint(0, 2))
             lines.append(loop_line(bb, w, 5000, rep, "gen:%d:%d" % (flen, rng.randint(0, 255)), dd, ud, da, ua))
+        # the domain of c04_lockstep_loss_tolerance: windowsize 1, up to 5 losses in total - clustered on one block (consecutive
+        # retransmissions of the same datagram and of its acknowledgement), spread out, and around the final block; any duplications
+        for _ in range(150 if tier == "quick" else 6000):
+            bb = rng.choice([8, 9])
+            nb = rng.randint(1, 6)
+            flen = (nb - 1) * bb + rng.choice([0, 1, bb - 1])
+            total = rng.randint(1, 5)
+            start = rng.randint(0, nb + 2)
+            cl = list(range(start, start + total))
+            mode = rng.choice(["data", "ack", "mixed", "spread"])
+            if mode == "data":
+                dd, da = cl, []
+            elif mode == "ack":
+                dd, da = [], cl
+            elif mode == "mixed":
+                k = rng.randint(0, total)
+                dd, da = cl[:k], list(range(start, start + total - k))
+            else:
+                k = rng.randint(0, total)
+                dd = rng.sample(range(nb + 8), k)
+                da = rng.sample(range(nb + 8), total - k)
+            ud = rng.sample(range(nb + 8), rng.randint(0, 3))
+            ua = rng.sample(range(nb + 8), rng.randint(0, 3))
+            lines.append(loop_line(bb, 1, 5000, 1, "gen:%d:%d" % (flen, rng.randint(0, 255)), dd, ud, da, ua))
         # the same datagram lost six times in a row: beyond the budget, must end (no livelock)
         lines.append(loop_line(8, 1, 5000, 1, "gen:20:1", dd=[1, 2, 3, 4, 5, 6]))
         return list(dict.fromkeys(lines))
